@@ -695,7 +695,7 @@ def u_sqrt_fq2(ctx):
             path.prove(f"{q}/raises.never", False, detail=res.__name__)
             return
         pows = state.get("pows", [])
-        path.prove(f"{q}/ensures.one-bigpow", len(pows) == 1 and path.pc.prove_zero((pows[0][0] - value).r.n),
+        path.prove(f"{q}/ensures.one-bigpow", len(pows) == 1 and path.pc.prove_zero((pows[0][0] - value).r.n), via="polyid",
                    detail="exactly one large exponentiation, of the argument (the candidate)")
         if res is None:
             if not square:
@@ -704,7 +704,7 @@ def u_sqrt_fq2(ctx):
             # the four even roots are 1, i, -1, -i; on this path t differs from each, yet t^4 = 1: contradiction in a field
             prod = (t - e[0]) * (t - e[2]) * (t - e[4]) * (t - e[6])
             contradiction = path.pc.prove_zero(prod.r.n) and all(path.pc.prove_nonzero((t - e[k]).r.n) for k in (0, 2, 4, 6))
-            path.prove(f"{q}/ensures.complete", contradiction,
+            path.prove(f"{q}/ensures.complete", contradiction, via="polyid",
                        detail="value = Y^2: returning None requires check outside {1, i, -1, -i} although check^4 = 1 "
                               "(Lean fourth_root_cases): the path is contradictory")
             return
